@@ -62,7 +62,13 @@ pub(crate) fn sync_audio_enabled(tracker: Res<SyncTrackerRes>) -> bool {
 
 impl SyncTrackerRes {
     pub(crate) fn signal_component_changed(&mut self, id: Uuid, data: Box<dyn Reflect>) {
-        let name = data.get_represented_type_info().unwrap().type_path().into();
+        // a SkinnedMesh travels as its SkinnedMeshSyncMapper, but its debounce token is stored under
+        // the SkinnedMesh path by apply_component_change_from_network: use the same name here
+        let name = if data.represents::<SkinnedMeshSyncMapper>() {
+            SkinnedMesh::default().reflect_type_path().to_string()
+        } else {
+            data.get_represented_type_info().unwrap().type_path().into()
+        };
         let change_id = ComponentChangeId { id, name };
         if self.pushed_component_from_network.contains(&change_id) {
             debug!(
